@@ -241,7 +241,7 @@ func TestC11Clock(t *testing.T) {
 			if err != nil {
 				rt.Fatalf("node: %v", err)
 			}
-			h := &hist{n: n, w: newWorld(), rich: 4}
+			h := &hist{n: n, w: newWorld(), rich: 4, noTemplate: true}
 			r := run{cs: clockCase{ThetaNs: int64(theta), MarginS: marginS}, genesis: g}
 			exec := func(op blockOp) {
 				resp, err := runBlock(n, op)
